@@ -439,7 +439,14 @@ func errClass(msg string) string {
 	return "EOther:" + msg
 }
 
-func (im *impl) apply(c *Cmd) Res {
+func (im *impl) apply(c *Cmd) (res Res) {
+	// a panic inside the store (e.g. a dereference of a missing parent row) ends the history: the
+	// write transaction is left open and the store cannot be used further
+	defer func() {
+		if r := recover(); r != nil {
+			res = Res{Kind: "panic", Msg: fmt.Sprint(r)}
+		}
+	}()
 	out := im.f.Apply(&raft.Log{Index: c.Idx, Term: 1, Type: raft.LogCommand, Data: encode(c)})
 	switch v := out.(type) {
 	case nil:
@@ -1259,6 +1266,16 @@ func (t *tracker) observe(before, after *Dump) {
 			}
 		}
 	}
+	// a service associated with gateways by more than one row (two gateways, or two listeners)
+	rowsOf := map[string]int{}
+	for _, g := range after.GWS {
+		if g.Service != "*" {
+			rowsOf[g.Service]++
+			if rowsOf[g.Service] > 1 {
+				t.flags["service-in-two-gateway-rows"] = true
+			}
+		}
+	}
 	// a virtual IP assignment disappeared although a sidecar proxy of that service stays and advertises it
 	av := map[string]bool{}
 	for _, v := range after.VIPs {
@@ -1377,8 +1394,17 @@ func (t *tracker) cause(f *OracleFail) string {
 			return "pair-shared-or-instance-redefined-or-wildcard-gateway"
 		}
 	case "gateway-services":
-		if !strings.HasPrefix(f.Sub, "api-") && t.flags["wildcard-gateway"] {
+		if strings.HasPrefix(f.Sub, "api-") {
+			return ""
+		}
+		if t.flags["wildcard-gateway"] {
 			return "wildcard-gateway"
+		}
+		if t.flags["destination-dropped-by-update"] {
+			return "destination-dropped-by-update"
+		}
+		if t.flags["service-in-two-gateway-rows"] {
+			return "service-in-two-gateway-rows"
 		}
 	}
 	return ""
@@ -1781,6 +1807,14 @@ func runScript(id int, mix string, script []Cmd, g *gen, n int) History {
 			c = g.next()
 		}
 		res := im.apply(&c)
+		if res.Kind == "panic" {
+			h.Cmds = append(h.Cmds, c)
+			h.Results = append(h.Results, Res{Kind: "panic"})
+			h.Oracle = append(h.Oracle, OracleFail{Step: i, Kind: "panic", Sub: "store-panicked", What: res.Msg})
+			h.Model = false
+			h.Final = before
+			break
+		}
 		after := im.dump()
 		h.Cmds = append(h.Cmds, c)
 		tr.observeCmd(&c, &before)
@@ -1857,6 +1891,15 @@ func corpus() map[string][]Cmd {
 			reg(5, "n1", proxy("s2", "consul", "web")),
 		},
 	}
+}
+
+func panicked(h *History) bool {
+	for _, f := range h.Oracle {
+		if f.Kind == "panic" {
+			return true
+		}
+	}
+	return false
 }
 
 func sigOf(f OracleFail) string { return f.Kind + "/" + f.Sub + "/" + f.Cause }
@@ -1954,7 +1997,7 @@ func main() {
 	if n == 0 {
 		n = 700
 		if *tier == "thorough" {
-			n = 12000
+			n = 7000
 		}
 	}
 	{
@@ -1966,7 +2009,7 @@ func main() {
 		sort.Strings(names)
 		for i, k := range names {
 			h := runScript(-1-i, "corpus:"+k, cp[k], nil, len(cp[k]))
-			h.Model = true
+			h.Model = !panicked(&h)
 			j, _ := json.Marshal(&h)
 			w.Write(j)
 			w.WriteByte('\n')
@@ -1981,7 +2024,7 @@ func main() {
 		g := &gen{rng: rand.New(rand.NewSource(rng.Int63())), mix: mix, model: true}
 		pre := preamble(rng.Intn(8) > 0)
 		h := runScript(i, mix, pre, g, len(pre)+ln)
-		h.Model = true
+		h.Model = !panicked(&h)
 		if len(h.Oracle) > 0 && !*noShrink {
 			sig := sigOf(h.Oracle[0])
 			if shrunkSigs[sig] < 3 {
